@@ -64,7 +64,7 @@ man = {
     "checks": checks,
     "not_applicable": na,
     "notes": "All checks: /venv/bin/python pbt/run.py <id> [--tier quick|thorough] [--replay file]; exit 2 = harness error. "
-             "known_findings.txt lists recorded findings (finding: - none at present) and repaired defects (fixed: - 26 commits in /repo, each with a "
+             "known_findings.txt lists recorded findings (finding: - one residual root cause, the inferred non-decimal grid spacing of C01/C11, see DESIGN.md 8.3) and repaired defects (fixed: - 27 commits in /repo, each with a "
              "minimal case under regress/ that every run replays first). Thorough tier: 16 shards, 10-50x the cases, larger bounds; C12/C19 add "
              "an atheris (libFuzzer) coverage-guided run over the same structured generator and oracle.",
 }
